@@ -203,9 +203,11 @@ def key_chain(ctx, res):
 
     class _Shim0:
         functions = dict(mod.functions)
+        local_closures = set()
     for f_ in ast.walk(fn):
         if isinstance(f_, ast.FunctionDef) and f_ is not h and f_ is not fn:
             _Shim0.functions[f_.name] = f_
+            _Shim0.local_closures.add(f_.name)
     h = _inl(_Shim0, None, h)
     keydef = [a for a in ast.walk(h) if isinstance(a, ast.Assign)
               and norm(a.value) == "TraitsCache + property_name"]
@@ -239,9 +241,11 @@ def pop_then_notify(ctx, res):
 
     class _Shim:
         functions = dict(mod.functions)
+        local_closures = set()
     for f_ in ast.walk(fn):
         if isinstance(f_, ast.FunctionDef) and f_ is not h and f_ is not fn:
             _Shim.functions[f_.name] = f_
+            _Shim.local_closures.add(f_.name)
     h = lower_ifexp_assign(inline_helpers(_Shim, None, h))
     inst = h.args.args[0].arg
 
